@@ -9,7 +9,16 @@ EXTRA = {
     "pitch_trim": lambda sc, n: sc.pitch_trim(aircraft=n, set_trim_state=True),
     "pitch_trim_orient": lambda sc, n: list(sc.pitch_trim_using_orientation(aircraft=n, set_trim_state=True)),
     "target_CL": lambda sc, n: sc.target_CL(CL=0.4, set_state=True, control_state={"elevator": -1.0}),
+    "export_pylot_model": lambda sc, n: pylot_coefficients(sc),
 }
+
+
+def pylot_coefficients(sc):
+    """the linearised model written by export_pylot_model: its coefficients (drag polars from sweeps in alpha and beta included)"""
+    fn = common.os.path.join(common.REPLAYS, "c11_pylot_%d.json" % common.os.getpid())
+    sc.export_pylot_model(filename=fn)
+    with open(fn) as fh:
+        return json.load(fh)["coefficients"]
 
 
 def twin_states(MX, rng, hist, wind):
@@ -45,6 +54,11 @@ def run(chk):
         an = names[i % len(names)]
         f = api.ANALYSES.get(an) or EXTRA[an]
         wind = [round(rng.uniform(-25, 25), 2), round(rng.uniform(-25, 25), 2), round(rng.uniform(-6, 6), 2)]
+        if i % 4 == 2:
+            # (enumerated) winds along one or two of the Earth-fixed axes only: a zero component is a value like any other
+            for k_ in [(1, 2), (0, 2), (2,), (0,)][(i // 4) % 4]:
+                wind[k_] = 0.0
+            chk.count("wind-with-zero-components")
         sdW = gen.gen_scene(rng, chk.hist, rho="const", wind=False, solver=gen.gen_solver(rng, chk.hist) if i % 3 == 1 else {"type": "nonlinear"})
         if i % 7 == 3:
             sdW["solver"]["match_machup_pro"] = True       # compatibility mode: the wake follows the translational freestream only
